@@ -23,6 +23,7 @@ RULE = ('exhaustive catalogue: allow mode {all, none, local, remote, sandbox} x 
         '= one cell of the catalogue; non-trivial = the target is denied by the mode (something must be blocked); the thorough '
         'tier repeats the catalogue on a second fixture layout')
 RULE += (' ' + 'Spellings include dot segments percent-escaped two and three levels deep (%252e%252e, %25252e%25252e).')
+RULE += (' ' + 'Absolute spellings that start with the sandbox directory and leave it through dot segments.')
 ASSUMPTIONS = [
     'the fixture tree is symlink-free and lives in a fresh temporary directory whose name is no prefix of anything else',
     'opens of the package\'s own schemas, of interpreter files and of translation catalogues are whitelisted by path prefix',
